@@ -77,6 +77,42 @@ def obligations(ctx):
         ob.fail("expected both Ok and Err paths, saw %s" % sorted(seen))
     ob.finish(E, lambda m: ("e2n_ex_units_cost", [le_bytes(mval(m, x.t), 8) for x in (mem, steps, n1, d1, n2, d2)]))
 
+    # ------------------------------------------------------------ script fee over the summed units of all redeemers
+    for nred in ((0, 1, 2, 3) if ctx.tier == "quick" else (0, 1, 2, 3, 4, 5)):
+        for has_redeemers in ((True, False) if nred == 0 else (True,)):
+            E = Engine(P, max_loop=nred + 3)
+            mems = [E.sym_int("mem%d" % i, "u64") for i in range(nred)]
+            stps = [E.sym_int("steps%d" % i, "u64") for i in range(nred)]
+            n1, d1, n2, d2 = E.sym_int("n1", "u64"), E.sym_int("d1", "u64"), E.sym_int("n2", "u64"), E.sym_int("d2", "u64")
+            E.assume(d1.t > 0); E.assume(d2.t > 0)
+            def mk():
+                reds = [E.mk_struct("Redeemer", ex_units=E.call("ExUnits::new", [VRef(Cell(bignum(m))), VRef(Cell(bignum(st)))])) for m, st in zip(mems, stps)]
+                rs = E.mk_struct("Redeemers", redeemers=VSeq(reds, "vec"))
+                ws = E.mk_struct("TransactionWitnessSet", redeemers=VEnum("Option", "Some", [rs]) if has_redeemers else VEnum("Option", "None", []))
+                tx = E.mk_struct("Transaction", witness_set=ws)
+                pr = E.call("ExUnitPrices::new", [VRef(Cell(mk_unit_interval(E, n1, d1))), VRef(Cell(mk_unit_interval(E, n2, d2)))])
+                return [VRef(Cell(tx, "tx")), VRef(Cell(pr, "prices"))]
+            ob = Obligation(ctx, "c15_e2_min_script_fee_%d_redeemers%s" % (nred, "" if has_redeemers else "_absent"),
+                            "%d redeemers, each memory/steps: all u64; price numerators all u64, denominators all u64 > 0" % nred,
+                            ["min_script_fee", "Redeemers::total_ex_units", "calculate_ex_units_ceil_cost"])
+            M, S_ = sum([m.t for m in mems], z3.IntVal(0)), sum([x.t for x in stps], z3.IntVal(0))
+            N = M * n1.t * d2.t + S_ * n2.t * d1.t
+            D = d1.t * d2.t
+            seen = set()
+            for o in E.explore("min_script_fee", mk):
+                k, v = result_parts(o)
+                seen.add(k)
+                if k == "Ok":
+                    ob.vc("Ok value is the ceiling of the price of the SUMMED execution units", o.pc, z3.And((v - 1) * D < N, N <= v * D, v >= 0, v <= U64, M <= U64, S_ <= U64))
+                elif k == "Err":
+                    ob.vc("Err only if a unit total or the ceiling exceeds u64", o.pc, z3.Or(M > U64, S_ > U64, N > U64 * D))
+                else:
+                    ob.vc("no panic path (%s: %s)" % (o.kind, o.msg), o.pc, z3.BoolVal(False))
+            if "Ok" not in seen:
+                ob.fail("no Ok path")
+            vals = lambda m: [[nred]] + sum([[le_bytes(mval(m, a.t), 8), le_bytes(mval(m, b.t), 8)] for a, b in zip(mems, stps)], []) + [le_bytes(mval(m, x.t), 8) for x in (n1, d1, n2, d2)]
+            ob.finish(E, (lambda m, vals=vals: ("e2n_script_fee", vals(m))) if has_redeemers else None)
+
     # ------------------------------------------------------------ tiered reference-script fee
     tiers = range(0, 9) if ctx.tier == "quick" else range(0, 49)
     for n in tiers:
